@@ -116,7 +116,20 @@ func checkC12(w *World, r *Report) {
 				buf = ms
 			}
 		})
-		if buf == nil {
+		var fixed *ssa.Alloc
+		eachInstr(encV1, func(in ssa.Instruction) {
+			if al, ok := in.(*ssa.Alloc); ok {
+				if arr, ok := deref(al.Type()).Underlying().(*types.Array); ok {
+					if b, ok := arr.Elem().Underlying().(*types.Basic); ok && b.Kind() == types.Uint8 {
+						fixed = al
+					}
+				}
+			}
+		})
+		if buf == nil && fixed != nil {
+			obA.Site(fixed.Pos(), "v1 body buffer is a fixed array "+typeString(deref(fixed.Type())))
+			obA.Violate("v1-buffer-size", fixed.Pos(), "the body buffer is a fixed "+typeString(deref(fixed.Type()))+": copy truncates every key that does not fit, so two accepted keys sharing that prefix encode to the same stored key; the buffer must be sized 1+len(key)")
+		} else if buf == nil {
 			obA.Undecided("v1-encoder-shape", "the v1 encoder does not build a buffer")
 		} else {
 			obA.Site(buf.Pos(), "v1 body buffer of "+Expr(buf.Len)+" bytes")
